@@ -137,7 +137,7 @@ struct qs_agent {
 				FRG_ASSERT(_acked_qs_counter + 1 == ctr);
 
 				// Now ack the QS.
-				if(_dom->_agents_to_ack.fetch_sub(1, std::memory_order_relaxed) == 1) {
+				if(_dom->_agents_to_ack.fetch_sub(1, std::memory_order_acq_rel) == 1) {
 					_dom->_agents_to_ack.store(_dom->_num_agents, std::memory_order_relaxed);
 					_dom->_qs_counter.store(ctr + 1, std::memory_order_release);
 				}
@@ -169,7 +169,7 @@ struct qs_agent {
 				FRG_ASSERT(_acked_qs_counter + 1 == ctr);
 
 				// Now ack the QS.
-				if(_dom->_agents_to_ack.fetch_sub(1, std::memory_order_relaxed) == 1) {
+				if(_dom->_agents_to_ack.fetch_sub(1, std::memory_order_acq_rel) == 1) {
 					auto desired = _dom->_desired_qs_counter.load(std::memory_order_relaxed);
 					if(desired > ctr) {
 						lock_guard<M> lock(_dom->_mutex);
@@ -217,7 +217,9 @@ struct qs_agent {
 	}
 
 	void run() {
-		auto ctr = _dom->_qs_counter.load(std::memory_order_relaxed);
+		// Acquire: everything the other agents did before they acked the grace period
+		// has to happen-before the callbacks that we invoke below.
+		auto ctr = _dom->_qs_counter.load(std::memory_order_acquire);
 		while(!_pending.empty()) {
 			auto node = _pending.front();
 			if(ctr < node->_target_qs_counter)
